@@ -69,6 +69,36 @@ Record gmethod := {
 }.
 Definition table := list gmethod.
 
+(* share-free plans (C04): no SkipCopy plan, no aliasing address-of; DeepCopyFacts.v proves that such plans, against a
+   table of such bodies, only hand out addresses they allocated themselves *)
+Fixpoint sf_v (p : vplan) : bool :=
+  match p with
+  | PId | PCall _ | PCallX _ _ _ => true
+  | PShare => false
+  | PRef al v => negb al && sf_v v
+  | POfAssign _ a => sf_a a
+  | PInit i _ a => sf_v i && sf_a a
+  | PMakeList _ a => sf_a a
+  | PEnum i _ _ _ => match i with Some (ip, _) => sf_v ip | None => true end
+  end
+with sf_a (a : aplan) : bool :=
+  match a with
+  | ASet v | APtr v | ASrcPtr v => sf_v v
+  | AList _ _ a' => sf_a a'
+  | AMap k v => sf_v k && sf_v v
+  | AStruct fs => forallb (fun f => match f with
+                                    | FSkip => true
+                                    | FAssign _ _ _ a' => sf_a a'
+                                    | FCall _ _ _ v => sf_v v
+                                    end) fs
+  | AIfNotNil a' => sf_a a'
+  | ADerefTgt a' => sf_a a'
+  end.
+
+Definition sf_body (b : option body) : bool :=
+  match b with Some (BVal p) => sf_v p | Some (BTail p) => sf_v p | Some (BUpd a) => sf_a a | None => true end.
+Definition sf_tableb (M : table) : bool := forallb (fun m => sf_body (g_body m)) M.
+
 (* custom functions (extend, map | FUNC, default FUNC) *)
 Record fdecl := { fd_name : rstr; fd_pkg : N; fd_src : option ty; fd_ctx : list ty; fd_conv : bool; fd_tgt : ty; fd_err : bool;
                   fd_args : list argsrc (* parameters in declared order *) }.
